@@ -78,8 +78,34 @@ def analyse_lexer(F, fns, struct, field, r):
                     break
     # R: functions with a direct store that is not definitely Err: they rely on entering with a clean slot
     R = set(p for p, st in direct.items() if any(k == "other" for _b, _s, k in st))
+    # assume-guarantee, closed over private helpers: a non-public method that hands on to a function requiring a clean slot
+    # without establishing it (code extracted from a caller that did) requires a clean slot itself - and that is then checked
+    # at each of ITS call sites.  Public entry points can assume nothing.
+    callers_of = {}
+    for f in fns:
+        for b in f["mir"]["blocks"]:
+            t = b["term"]
+            if t["k"] == "Call":
+                callers_of.setdefault(t.get("resolved") or t.get("def"), set()).add(f["path"])
+    for _round in range(5):
+        findings, examined, promote = _analyse_round(F, fns, struct, field, r, W, R, direct, byp, callers_of)
+        promote -= R
+        if not promote:
+            break
+        R |= promote
+    r.examined_states = examined
+    for f in fns:
+        if f["path"] in W:
+            r.examine(f["path"], True, {"fn": f["path"], "writes_slot": f["path"] in direct, "requires_clean_slot": f["path"] in R})
+    r.analysed.setdefault("may_write_slot", sorted(W))
+    r.analysed.setdefault("requires_clean_slot_at_entry", sorted(R))
+    return findings, W, R, direct
+
+
+def _analyse_round(F, fns, struct, field, r, W, R, direct, byp, callers_of):
     findings = []
     examined = 0
+    promote = set()
     for f in fns:
         if f["path"] not in W:
             continue
@@ -167,12 +193,12 @@ def analyse_lexer(F, fns, struct, field, r):
                 findings.append((f["path"], "overwrite#%d" % n[v[0]], v[2],
                                  "the error slot `%s` is assigned a value that may be Ok while it is %s: a recorded error can be overwritten" % (field, "Err" if v[3] == "Err" else "not known to be Ok")))
             else:
+                if f.get("vis") != "Public" and not f.get("trait_item") and callers_of.get(f["path"]) and f["path"] not in R and v[3] != "Err":
+                    promote.add(f["path"])
+                    continue
                 findings.append((f["path"], "consume-after-error:%s#%d" % (last(v[4]), n[v[0]]), v[2],
                                  "`%s` (which assigns the error slot a possibly-Ok value) is called while the slot is %s: characters keep being consumed after an error was recorded, and the error is then cleared" % (last(v[4]), "Err" if v[3] == "Err" else "not known to be Ok")))
-        r.examine(f["path"], True, {"fn": f["path"], "abstract_states": it.visited, "writes_slot": f["path"] in direct, "requires_clean_slot": f["path"] in R})
-    r.analysed.setdefault("may_write_slot", sorted(W))
-    r.analysed.setdefault("requires_clean_slot_at_entry", sorted(R))
-    return findings, W, R, direct
+    return findings, examined, promote
 
 
 def rule_A3(ctx):
